@@ -41,7 +41,7 @@ def build(b, gdir, engine_srcs, name, opt='-O2', world_srcs=('wrap_generic.c',),
             s = os.path.join(core.ROOT, 'engine', s)
         add(s, ['-O2', '-msse2', '-mfpmath=sse'] + inc_n)
     add(os.path.join(I, 'libc.c'), ['-O1'])
-    core.par(cmds, 'ILP32 world build')
+    core.par(cmds, 'ILP32 world (freestanding)', soft=True)
     exe = os.path.join(b, name + '-ilp32')
     r = core.sh(['gcc', '-m32', '-nostdlib', '-static', '-no-pie', '-o', exe] + objs)
     if r.returncode != 0:
